@@ -658,8 +658,12 @@ _public_ int m_mod_start(m_mod_t *mod) {
     M_MOD_ASSERT_STATE(mod, M_MOD_IDLE | M_MOD_STOPPED);
     M_MOD_CONSUME_TOKEN(mod);
     
-    int ret = start(mod, true);
-    M_MOD_BOUND(m_mod_start);
+    int ret;
+    /* Callbacks may deregister the module: keep it alive until we are done with it */
+    M_MEM_LOCK(mod, {
+        ret = start(mod, true);
+        M_MOD_BOUND(m_mod_start);
+    });
     return ret;
 }
 
@@ -667,8 +671,12 @@ _public_ int m_mod_pause(m_mod_t *mod) {
     M_MOD_ASSERT_STATE(mod, M_MOD_RUNNING);
     M_MOD_CONSUME_TOKEN(mod);
     
-    int ret = stop(mod, false);
-    M_MOD_BOUND(m_mod_pause);
+    int ret;
+    /* Callbacks may deregister the module: keep it alive until we are done with it */
+    M_MEM_LOCK(mod, {
+        ret = stop(mod, false);
+        M_MOD_BOUND(m_mod_pause);
+    });
     return ret;
 }
 
@@ -676,8 +684,12 @@ _public_ int m_mod_resume(m_mod_t *mod) {
     M_MOD_ASSERT_STATE(mod, M_MOD_PAUSED);
     M_MOD_CONSUME_TOKEN(mod);
     
-    int ret = start(mod, false);
-    M_MOD_BOUND(m_mod_resume);
+    int ret;
+    /* Callbacks may deregister the module: keep it alive until we are done with it */
+    M_MEM_LOCK(mod, {
+        ret = start(mod, false);
+        M_MOD_BOUND(m_mod_resume);
+    });
     return ret;
 }
 
@@ -685,8 +697,12 @@ _public_ int m_mod_stop(m_mod_t *mod) {
     M_MOD_ASSERT_STATE(mod, M_MOD_RUNNING | M_MOD_PAUSED);
     M_MOD_CONSUME_TOKEN(mod);
     
-    int ret = stop(mod, true);
-    M_MOD_BOUND(m_mod_stop);
+    int ret;
+    /* Callbacks may deregister the module: keep it alive until we are done with it */
+    M_MEM_LOCK(mod, {
+        ret = stop(mod, true);
+        M_MOD_BOUND(m_mod_stop);
+    });
     return ret;
 }
 
